@@ -72,6 +72,11 @@ def cond_discr(crate, x, ty, label, all_labels):
     ty = ty.lstrip('&').strip()
     if ty.startswith('mut '):
         ty = ty[4:]
+    two = ty.startswith(('core::option::Option<', 'std::option::Option<', 'core::result::Result<', 'std::result::Result<', 'core::ops::ControlFlow<'))
+    if two and label == 'otherwise':
+        rest = [v for v in (0, 1) if v not in all_labels]
+        if len(rest) == 1:
+            label = rest[0]
     if ty.startswith('core::option::Option<') or ty.startswith('std::option::Option<'):
         names = {0: 'absent', 1: 'present'}
         if label in names:
